@@ -5,7 +5,7 @@ use crate::{
     T,
 };
 
-use super::{delimited, r#type, statement};
+use super::{delimited, delimited_nonempty, r#type, statement};
 
 pub(super) const VALUE_START: [TokenKind; 64] = [
     TokenKind::IntVal,
@@ -459,9 +459,16 @@ pub(super) fn bang_operator(p: &mut Parser) -> CompletedMarker {
 pub(super) fn cond_operator(p: &mut Parser) -> CompletedMarker {
     p.start_node(SyntaxKind::CondOperator);
     p.expect(T![!cond]);
-    delimited(p, T!['('], T![')'], T![,], |p| {
-        cond_clause(p);
-    });
+    delimited_nonempty(
+        p,
+        T!['('],
+        T![')'],
+        T![,],
+        "expected 'condition : value' in !cond",
+        |p| {
+            cond_clause(p);
+        },
+    );
     p.finish_node();
     CompletedMarker::Success
 }
